@@ -83,6 +83,9 @@ def client_ctx(min_v=None, max_v=None, permissive=False):
     return ctx
 
 
+IDLE_S = [7.0]     # how long the idle reader pauses after the first bytes (well below asyncio's own 30 s TLS shutdown allowance)
+
+
 def fetch(port, request, reader="fast", rnd=None, timeout=30):
     """One request over real TLS; returns all bytes until EOF (and whether EOF was clean)."""
     raw = socket.create_connection(("127.0.0.1", port), timeout=timeout)
@@ -94,7 +97,7 @@ def fetch(port, request, reader="fast", rnd=None, timeout=30):
         while True:
             if reader == "idle5" and len(out) > 0 and not idled:
                 idled = True
-                time.sleep(4)
+                time.sleep(IDLE_S[0])
             if reader == "slow":
                 time.sleep(0.002)
                 n = 1024
@@ -187,6 +190,7 @@ def started_server_idle_reader(rep, cert):
     import shutil
     import tempfile
     from checks.c20 import RealServer
+    IDLE_S[0] = 14.0 if rep.tier == "thorough" else 7.0
     root = tempfile.mkdtemp(prefix="vf-c06-")
     line = "0123456789 abcdefghijklmnopqrstuvwxyz ABCDEFGHIJKLMNOPQRSTUVWXYZ\n"
     content = (line * (24 * 1024 * 1024 // len(line) + 1))
@@ -209,8 +213,8 @@ def started_server_idle_reader(rep, cert):
         for bk, (data, end) in results.items():
             if data != want or end != "eof":
                 rep.violation({"formula": "ByteExact", "backend": bk, "live": True, "reader": "idle", "via": "start_server"},
-                              "server started by start_server (%s backend), 24 MiB static file, reader idle for 4 s after the header: received %d of %d bytes, end=%s" % (
-                                  bk, len(data), len(want), end), None)
+                              "server started by start_server (%s backend), 24 MiB static file, reader idle for %.0f s after the header: received %d of %d bytes, end=%s" % (
+                                  bk, IDLE_S[0], len(data), len(want), end), None)
         return len(results)
     finally:
         for s_ in servers.values():
